@@ -11,16 +11,19 @@ C17 — admissibility of the 1-D ideal-gas Riemann solution.
 * Every shock is compressive: pressure and density rise in the direction the material crosses
   it (`shock_compressive`, `scs_compressive`, `scr_compressive`, `rcs_compressive`).
 * Inside a rarefaction fan density, pressure and velocity are strictly monotone in x
-  (`fan_monotone`; derivative sign from the generated certificates of `rho_p_u_rarefaction`).
+  (`fan_monotone`; derivative sign from the generated certificates of `rho_p_u_rarefaction`), in the
+  whole fan as the driver delimits it by `Vregs` (`left_fan_monotone_inside`,
+  `right_fan_monotone_inside`: the similarity variable stays ≥ (px/p)^κ > 0 up to the tail).
 -/
 import EPV.Lemmas.RiemannMono
+import EPV.Lemmas.RiemannOrder
 import EPV.Gen.RiemFanD
 
 set_option linter.all false
 
 open EPV EPV.Gen EPV.Model EPV.Spec.Riemann EPV.Riem
 
-namespace EPV.C17
+namespace EPV.C17.Riemann
 
 /-- sign of the generated x-derivative of a fan profile `c · y^e`: opposite to the sign σ of the fan -/
 theorem fan_dsign (σ : ℝ) (hσ : σ = 1 ∨ σ = -1) {c gm a gp t e Y Ye : ℝ} (hc : 0 < c) (hgm : 0 < gm) (ha : 0 < a)
@@ -289,7 +292,83 @@ theorem fan_expansive {px p ρ γ : ℝ} (hp : 0 < p) (hρ : 0 < ρ) (hγ : 1 < 
   have : (px / p) ^ (1 / γ) < 1 := Real.rpow_lt_one (by positivity) hz (by positivity)
   nlinarith
 
+/-! ### the whole interior of a fan -/
+
+/-- between its head and its tail (speed u ∓ (rarefaction(px,…) - c*), the `Vregs` entry of the
+driver) the similarity variable of a fan stays at or above (px/p)^((γ-1)/(2γ)) > 0: the fan formulas
+are evaluated on their domain and `fan_monotone` applies in the whole fan -/
+theorem fanY_inside (q : Prob) {p ρ u γ px xd0 x t : ℝ} (hp : 0 < p) (hρ : 0 < ρ) (hγ : 1 < γ) (hpx : 0 < px)
+    (h : fanSgn q p ρ u * ((x - xd0) / t)
+          ≤ fanSgn q p ρ u * u + rare px p ρ 0 γ - sound px (rhoRare px p ρ γ) γ) :
+    (px / p) ^ ((γ - 1) / 2 / γ) ≤ fanY q p ρ u γ xd0 x t ∧ 0 < (px / p) ^ ((γ - 1) / 2 / γ) := by
+  have hA : 0 < (px / p) ^ ((γ - 1) / 2 / γ) := Real.rpow_pos_of_pos (by positivity) _
+  refine ⟨?_, hA⟩
+  have ha := sound_pos hp hρ (by linarith : 0 < γ)
+  rw [sound_on_isentrope hp hρ hγ hpx, rare_eq, ← sound_eq] at h
+  unfold fanY; rw [← sound_eq]
+  generalize (px / p) ^ ((γ - 1) / 2 / γ) = A at *
+  generalize sound p ρ γ = a at *
+  generalize (x - xd0) / t = ξ at *
+  have hg1 : 0 < γ - 1 := by linarith
+  have hg2 : 0 < γ + 1 := by linarith
+  have key : ∀ σ : ℝ, (σ = 1 ∨ σ = -1) → σ * ξ ≤ σ * u + (2 * a / (γ - 1) * (1 - A) + 0) - a * A →
+      A ≤ 2 / (γ + 1) + σ * (γ - 1) / a / (γ + 1) * (u - ξ) := by
+    intro σ hσ h
+    have e : 2 / (γ + 1) + σ * (γ - 1) / a / (γ + 1) * (u - ξ)
+        = A + (γ - 1) / (a * (γ + 1)) * ((σ * u + (2 * a / (γ - 1) * (1 - A) + 0) - a * A) - σ * ξ) := by
+      field_simp; ring
+    rw [e]
+    have : 0 ≤ (γ - 1) / (a * (γ + 1)) * ((σ * u + (2 * a / (γ - 1) * (1 - A) + 0) - a * A) - σ * ξ) := by
+      apply mul_nonneg (by positivity); linarith
+    linarith
+  exact key _ (fanSgn_sq q p ρ u) h
+
+/-- what `fan_monotone` gives for one fan -/
+def FanMonotoneAt (q : Prob) (p ρ u γ xd0 x t : ℝ) : Prop :=
+  ∃ dρ dp du, HasDerivAt (fun x' => fanRho q p ρ u γ xd0 x' t) dρ x ∧ dρ * fanSgn q p ρ u < 0 ∧
+    HasDerivAt (fun x' => fanP q p ρ u γ xd0 x' t) dp x ∧ dp * fanSgn q p ρ u < 0 ∧
+    HasDerivAt (fun x' => fanU q p ρ u γ xd0 x' t) du x ∧ 0 < du
+
+/-- C17: inside the LEFT fan of the patterns RCS and RCR — from anywhere left of its tail
+`Xregs[1] = xd0 + t (ux - ax1)` — density and pressure strictly decrease and the velocity strictly
+increases with x -/
+theorem left_fan_monotone_inside (q : Prob) (hq : q.Admissible) {px xd0 x t : ℝ} (hpx : 0 < px) (ht : 0 < t)
+    (hx : x ≤ xd0 + t * (uxF q px - sound px (rhoRare px q.pl q.rl q.gl) q.gl)) :
+    fanSgn q q.pl q.rl q.ul = 1 ∧ FanMonotoneAt q q.pl q.rl q.ul q.gl xd0 x t := by
+  obtain ⟨hpl, hrl, hgl, -, -, -⟩ := id hq
+  refine ⟨fanSgn_left q, ?_⟩
+  have h : fanSgn q q.pl q.rl q.ul * ((x - xd0) / t)
+      ≤ fanSgn q q.pl q.rl q.ul * q.ul + rare px q.pl q.rl 0 q.gl - sound px (rhoRare px q.pl q.rl q.gl) q.gl := by
+    rw [fanSgn_left, one_mul, one_mul, div_le_iff₀ ht]
+    unfold uxF at hx; linarith
+  obtain ⟨h1, h2⟩ := fanY_inside q hpl hrl hgl hpx h
+  exact fan_monotone q hpl hrl hgl ht (lt_of_lt_of_le h2 h1)
+
+/-- C17: inside the RIGHT fan of the patterns SCR and RCR — from its tail `xd0 + t (ux + ax2)` on —
+density, pressure and velocity strictly increase with x; `ux` is the star velocity the driver
+computes from the left wave, equal to ur - rarefaction(px, pr, …) by the atom hypothesis -/
+theorem right_fan_monotone_inside (q : Prob) (hq : q.Admissible) (hd : q.Distinct) {px xd0 x t ux : ℝ}
+    (hpx : 0 < px) (ht : 0 < t) (hux : ux = q.ur + -1 * rare px q.pr q.rr 0 q.gr)
+    (hx : xd0 + t * (ux + sound px (rhoRare px q.pr q.rr q.gr) q.gr) ≤ x) :
+    fanSgn q q.pr q.rr q.ur = -1 ∧ FanMonotoneAt q q.pr q.rr q.ur q.gr xd0 x t := by
+  obtain ⟨-, -, -, hpr, hrr, hgr⟩ := id hq
+  refine ⟨fanSgn_right q hd, ?_⟩
+  have h : fanSgn q q.pr q.rr q.ur * ((x - xd0) / t)
+      ≤ fanSgn q q.pr q.rr q.ur * q.ur + rare px q.pr q.rr 0 q.gr - sound px (rhoRare px q.pr q.rr q.gr) q.gr := by
+    rw [fanSgn_right q hd]
+    have : ux + sound px (rhoRare px q.pr q.rr q.gr) q.gr ≤ (x - xd0) / t := by
+      rw [le_div_iff₀ ht]; linarith
+    rw [hux] at this; linarith
+  obtain ⟨h1, h2⟩ := fanY_inside q hpr hrr hgr hpx h
+  exact fan_monotone q hpr hrr hgr ht (lt_of_lt_of_le h2 h1)
+
+/-- the star velocity of the patterns with a right fan satisfies the hypothesis `hux` above -/
+theorem right_fan_ux (q : Prob) (px : ℝ) :
+    (SCR q px = 0 → uxS q px = q.ur + -1 * rare px q.pr q.rr 0 q.gr) ∧
+    (RCR q px = 0 → uxF q px = q.ur + -1 * rare px q.pr q.rr 0 q.gr) :=
+  ⟨fun h => Riem.scr_ux q px h, fun h => Riem.rcr_ux q px h⟩
+
 /-- non-vacuity: Sod data, a positive pressure -/
 example : sod.Admissible ∧ sod.Distinct ∧ (0 : ℝ) < 3 / 10 := ⟨sod_admissible.1, sod_admissible.2, by norm_num⟩
 
-end EPV.C17
+end EPV.C17.Riemann
